@@ -12,7 +12,7 @@ def Readable (st : St) (f : Nat) : Prop :=
 
 instance (st : St) (f : Nat) : Decidable (Readable st f) := by unfold Readable; infer_instance
 
-theorem Readable.loaded {cfg : Cfg} {p : Int} {st : St} {f : Nat} (h : Inv cfg p st) (hr : Readable st f) :
+theorem Readable.loaded {cfg : Cfg} {p : Int} {st : St} {f : Nat} (h : Inv cfg img p st) (hr : Readable st f) :
     (st.le f).state = .loaded := by
   obtain ⟨hw, hk, _⟩ := hr
   cases hs : (st.le f).state with
@@ -33,7 +33,7 @@ structure Intact (cfg : Cfg) (n : Nat) (st : St) (f : Nat) (C : List Int) : Prop
   range : ∀ x ∈ C, 0 ≤ x ∧ x < (n : Int)
   size : sumOn st.ssize C = (st.an f).sfs ∨ (cfg.v.finalizeChecksKnownSize = false ∧ sumOn st.ssize C < (st.an f).sfs)
 
-theorem Inv.intact {cfg : Cfg} {n : Nat} {st : St} {f : Nat} (h : Inv cfg n st) (hr : Readable st f) :
+theorem Inv.intact {cfg : Cfg} {n : Nat} {st : St} {f : Nat} (h : Inv cfg img n st) (hr : Readable st f) :
     ∃ C, Intact cfg n st f C := by
   obtain ⟨_, C, hC⟩ := h.loaded f (hr.loaded h)
   refine ⟨C, hC.chain, sumOn_pos_ne_nil (by rw [hC.sum]; exact hC.pos), hC.nodup, hC.range, ?_⟩
@@ -42,7 +42,34 @@ theorem Inv.intact {cfg : Cfg} {n : Nat} {st : St} {f : Nat} (h : Inv cfg n st) 
   | inl e => exact Or.inl e.symm
   | inr e => exact Or.inr e
 
-theorem Inv.disjoint {cfg : Cfg} {n : Nat} {st : St} {f g : Nat} (h : Inv cfg n st) (hf : Readable st f) (hg : Readable st g)
+/-- the slices of a readable chain are exactly what the db cells at those positions say -/
+theorem Inv.matches_disk {cfg : Cfg} {n : Nat} {st : St} {f : Nat} (h : Inv cfg img n st) (hr : Readable st f)
+    {C : List Int} (hc : Chain st.next (st.an f).start C) :
+    ∀ x ∈ C, ∃ hd, usableAt cfg img x = some hd ∧ (st.sl x).size = hd.payloadSize ∧ (st.sl x).next = hd.nextSlot := by
+  obtain ⟨_, C', hC⟩ := h.loaded f (hr.loaded h)
+  have e : C = C' := Chain.unique hc hC.chain
+  subst e
+  intro x hx
+  obtain ⟨_, hd, hu, hs⟩ := hC.cells x hx
+  exact ⟨hd, hu, by rw [hs]; rfl, by rw [hs]; rfl⟩
+
+/-- when chains cannot leave their entry, every slot of a readable chain is a cell of that entry (its key hashes to the
+    entry's position), has not been freed and is not on the free-slot stack -/
+theorem Inv.own_slots {cfg : Cfg} {n : Nat} {st : St} {f : Nat} (h : Inv cfg img n st) (ho : Own cfg img) (hr : Readable st f)
+    {C : List Int} (hc : Chain st.next (st.an f).start C) :
+    ∀ x ∈ C, x ∉ st.free ∧ (st.ls x).freed = false ∧ ∃ hd, usableAt cfg img x = some hd ∧ fileOf cfg img hd = f := by
+  obtain ⟨_, C', hC⟩ := h.loaded f (hr.loaded h)
+  have e : C = C' := Chain.unique hc hC.chain
+  subst e
+  intro x hx
+  obtain ⟨a, b, c⟩ := hC.own ho x hx
+  obtain ⟨hm, _⟩ := hC.cells x hx
+  obtain ⟨hd, hu, hown, _⟩ := h.disk x hm
+  refine ⟨c, b, hd, hu, ?_⟩
+  rw [a] at hown
+  omega
+
+theorem Inv.disjoint {cfg : Cfg} {n : Nat} {st : St} {f g : Nat} (h : Inv cfg img n st) (hf : Readable st f) (hg : Readable st g)
     (hfg : f ≠ g) {Cf Cg : List Int} (hcf : Chain st.next (st.an f).start Cf) (hcg : Chain st.next (st.an g).start Cg) :
     ∀ x ∈ Cf, x ∉ Cg :=
   h.disj f g hfg (hf.loaded h) (hg.loaded h) Cf Cg hcf hcg
